@@ -23,6 +23,9 @@ def selftest():
     for n in range(0, 6):
         a = rng.normal(size=(n, n)) + 1j * rng.normal(size=(n, n))
         assert abs(ref_fock.perm(a) - ref_fock.perm_naive(a)) < 1e-9 * max(1, abs(ref_fock.perm_naive(a))), n
+    for n in (5, 6, 7):
+        a = rng.normal(size=(n, n)) + 1j * rng.normal(size=(n, n))
+        assert abs(ref_fock.perm(a) - ref_fock.perm_ryser(a)) < 1e-8 * max(1, abs(ref_fock.perm_ryser(a))), n
     # 2. permanent amplitudes vs polynomial expansion, incl. bunching; unit norm
     for n, seed in ((2, 1), (3, 2), (4, 3)):
         u = kernel.haar(n, seed)
